@@ -117,7 +117,7 @@ static void refused_batch_case(const char* dir, uint64_t seed) { char path[512],
     snprintf(tag, sizeof tag, "structure-only refused-batch seed=%llu variant=%d first_bad=%s/%d", (unsigned long long)seed, variant, wr.first_bad_call ? wr.first_bad_call : "none", wr.first_bad_status);
     if (created && wr.close_called && wr.close_status == CARQUET_OK) { v_count(wr.all_ok ? "int96_tables_written_completely" : "refused_batch_then_close_ok");
         carquet_error_t err = CARQUET_ERROR_INIT; carquet_reader_t* rd = carquet_reader_open(path, NULL, &err); if (!rd) v_viol("refused-batch:close-ok-but-file-does-not-open", "%s: %s", tag, err.message); else carquet_reader_close(rd);
-        if (KEEP) { char dst[600], cmd[1400]; snprintf(dst, sizeof dst, "%s/case_%lld", KEEP, (long long)KEPT++); snprintf(cmd, sizeof cmd, "%s.tdmp", dst); tbl_dump(t, cmd); snprintf(cmd, sizeof cmd, "%s.parquet", dst); rename(path, cmd);
+        if (KEEP && getenv("CQV_KEEP_STRUCTURE_ONLY")) {   /* only C05 knows what to do with a file whose model is not the table */ char dst[600], cmd[1400]; snprintf(dst, sizeof dst, "%s/case_%lld", KEEP, (long long)KEPT++); snprintf(cmd, sizeof cmd, "%s.tdmp", dst); tbl_dump(t, cmd); snprintf(cmd, sizeof cmd, "%s.parquet", dst); rename(path, cmd);
             snprintf(cmd, sizeof cmd, "%s.meta", dst); FILE* f = fopen(cmd, "w"); if (f) { fprintf(f, "codec=%d page_size=%lld nrg=%d ncols=%d tag=%s\n", t->codec, (long long)t->page_size, t->nrg, t->ncols, tag); fclose(f); } } }
     else v_count("refused_batch_then_close_refused");
     unlink(path); tbl_free(t); } }
